@@ -111,11 +111,27 @@ def context():
 TEXT_KEYS = ('description', 'reference', 'lastupdated', 'organization', 'contactinfo')
 
 
-def judge(decls, gen_texts, sigbase, modname='TEST-MIB', others=(), others_first=True):
+def relayout(text, comments, terms):
+    """The same tokens on the same lines: every line that ends outside a quoted string gets a comment (or not) and the line ends are
+    taken, in turn, from terms."""
+    out, inside, i = [], False, 0
+    for line in text.split('\n'):
+        inside ^= line.count('"') % 2 == 1
+        if inside:
+            out.append(line + '\n')
+            continue
+        out.append(line + (' -- a remark' if comments and line.strip() else '') + terms[i % len(terms)])
+        i += 1
+    return ''.join(out)
+
+
+def judge(decls, gen_texts, sigbase, modname='TEST-MIB', others=(), others_first=True, layout=None):
     """others: [(module name, decls)] unrelated modules compiled by the same call (same compiler, same generators)."""
     mod = refir.finish_module({'name': modname, 'decls': decls})
     uni = refir.Universe([mod])
     text = mibspec.pretty([mod])
+    if layout:
+        text = relayout(text, *layout)
     parser = env.shared_parser('smiV2')
     parser.reset()
     texts = {modname: text}
@@ -327,6 +343,29 @@ class TableOrders(object):
         items = t + make('ot', 1)
         items = [items[i] for i in case['perm']]
         return judge(context() + items, False, 'C03|table-order|cols=%d' % case['ncols'])
+
+
+class LineEnds(object):
+    name = 'line-ends-and-comments'
+    describe = ('one declaration of each kind (and a table) per module, every line with or without a trailing comment, the line ends LF, '
+                'CR LF, lone CR, and the mixtures that real files show (CR / LF in turn, CR LF / CR in turn, CR / CR LF / LF): the '
+                'document holds the declared symbols with the declared data whatever ends the lines and the comments')
+
+    TERMS = [['\n'], ['\r\n'], ['\r'], ['\r', '\n'], ['\r\n', '\r'], ['\r', '\r\n', '\n'], ['\n', '\r']]
+
+    def blocks(self, tier):
+        return [{'kind': k} for k in ('ot', 'tbl', 'mi', 'tc', 'nt', 'mc')]
+
+    def cases(self, block, tier):
+        for comments in (0, 1):
+            for t in range(len(self.TERMS)):
+                yield {'kind': block['kind'], 'comments': comments, 't': t}
+
+    def run_case(self, case):
+        decls = context() + make(case['kind'], 0) + make('ot', 1) + make('type', 2)
+        return judge(decls, True, 'C03|line-ends|%s|%s' % ('comments' if case['comments'] else 'plain',
+                                                            '+'.join(repr(x)[1:-1] for x in self.TERMS[case['t']])),
+                     layout=(case['comments'], self.TERMS[case['t']]))
 
 
 class ForwardChains(object):
@@ -553,4 +592,4 @@ def _option_histories():
         prefix = 'C03'
     return OptionHistories()
 
-FAMILIES = [Sequences(), Names(), Parts(), ReservedKeys(), TableOrders(), ForwardChains(), NestedRuns(), SharedNames(), MetTwice(), _option_histories()]
+FAMILIES = [Sequences(), Names(), Parts(), ReservedKeys(), TableOrders(), LineEnds(), ForwardChains(), NestedRuns(), SharedNames(), MetTwice(), _option_histories()]
